@@ -42,9 +42,27 @@ NEEDS = {
  'C19b': ("'options.to_measure or measures'", "as C19a"),
  'C20a': ("directory mode de-duplicates inputs by file stem", "recursive directory mode with the same file name in two directories"),
  'C20b': ("_write appends a final newline; converters routed through _write", "an empty export (dump) or an ekern input without final newline"),
+ 'C01c': ("null rows removed from the row list while iterating over it", ">= 2 consecutive all-null rows (after the header)"),
+ 'C02c': ("csv dialect excel_tab in both readers (quoting again)", "a cell that begins with a double quote"),
+ 'C03c': ("barline 'correction' now fires with endswith and drops the leading '='", "a left-right repeat barline (=:|!|: or =:!:)"),
+ 'C04c': ("header rewriting moved into append_row; the measure-excerpt preamble still calls export_token", "from_measure >= 1 with an encoding other than kern"),
+ 'C05c': ("NoteRestToken.export returns '*' early when no pitch/duration part is selected", "a decorated note/rest with DECORATION selected and none of its other parts"),
+ 'C06c': ("adjacent *v merged by common last spine operator instead of common header", "a split inside a split in a spine that is not the right-most, plus a spine selection"),
+ 'C07c': ("end stage compared with M-1 instead of M (off by one)", "to_measure == M-1 on a score with content after its last barline"),
+ 'C09c': ("direction compared with 'is' (identity) instead of ==", "direction 'up' passed as a string built at run time"),
+ 'C10c': ("row-level is_barline flag short-circuits the elif chain that registers signatures", "a clef right of a '*' in a row before the first barline/data row, >= 2 spines"),
+ 'C11c': ("valid() expands and subtracts in place on the caller's set", "the same include set object reused after a call that excluded one of its members"),
+ 'C12c': ("exporter strips blanks from every exported token", "a malformed (or free-text) cell with a leading/trailing blank"),
+ 'C13c': ("spine ids resolved as indexes in the type-filtered header list", "spine_ids with a spine removed by the type selection to the left of a requested one"),
+ 'C14c': ("valid() closes the caller's set in place (also BEKERN_CATEGORIES)", "categories passed as a set object that is reused or inspected afterwards"),
+ 'C15c': ("'continue' for rests skips the enqueueing of children in the BFS", "a rest followed by notes further down the same spine"),
+ 'C16c': ("octave validated with str(octave).isdigit()", "any spelling of octave -1 (five upper-case letters)"),
+ 'C17c': ("filter expanded with match() (adds ancestors) instead of valid()", "a filter naming a category strictly below a token-level category (PITCH, DURATION, ...)"),
+ 'C18c': ("importer dispatch table keyed '**mhxm' instead of '**mxhm'", "a **mxhm spine imported through createImporter / loads"),
+ 'C20c': ("import_string reads through StringIO with default csv quoting", "loads() of a text with a cell starting with a double quote (load() unaffected)"),
 }
 MISSED_FIRST = {'C02a', 'C04a', 'C10a', 'C16a', 'C20a', 'C20b', 'C18b'}
-STRENGTHENED_BEFORE_FIRST_RUN = {'C16b', 'C04b', 'C11b'}
+STRENGTHENED_BEFORE_FIRST_RUN = {'C16b', 'C04b', 'C11b', 'C11c', 'C09c', 'C04c', 'C01c'}
 HEAD = subprocess.run(['git', '-C', '/repo', 'rev-parse', '--short', 'HEAD'], capture_output=True, text=True).stdout.strip()
 # changes that a later fix: commit in /repo made harmless (kept for the record; they were confirmed and caught at the commit named)
 NEUTRALISED = {
@@ -57,16 +75,20 @@ for sid, (what, needs) in sorted(NEEDS.items()):
     if not os.path.isdir(d):
         continue
     out = f'/tmp/tryall-{sid}.out'
+    if not os.path.exists(out) and os.path.exists(f'/tmp/try-{sid}.out'):
+        out = f'/tmp/try-{sid}.out'
     caught, base, demo = [], None, []
     if os.path.exists(out):
         txt = open(out, errors='replace').read()
         caught = re.findall(r'^(C\d\d) rc=1', txt, re.M)
+        ran = re.findall(r'^(C\d\d) rc=\d', txt, re.M)
         inconc = re.findall(r'^(C\d\d) rc=2', txt, re.M)
         m = re.search(r'(\d+)/276 stable tests pass', txt)
         base = m.group(0) if m else None
         demo = re.findall(r'^exit (\d)', txt, re.M)
     else:
         inconc = []
+        ran = []
     meta = {
         'id': sid,
         'breaks_property': sid[:3],
@@ -79,6 +101,7 @@ for sid, (what, needs) in sorted(NEEDS.items()):
             'pinned_suite_with_patch': base,
             'demo_exit_codes [pristine, patched]': demo[:2],
         },
+        'quick_checks_run_against_it': ran if len(ran) < 20 else 'all 20',
         'quick_checks_that_report_a_violation': caught,
         'quick_checks_inconclusive_with_patch': inconc,
         'own_check_catches_it': sid[:3] in caught,
